@@ -62,7 +62,19 @@ class Ctx:
         if self.drv is None or not self.drv.alive():
             if self.drv is not None:
                 self.drv.close()
-            self.drv = Driver(self.bin)
+            env_extra = None
+            if self.profile == "cov":
+                os.makedirs(os.path.join(build.TARGET, "profraw"), exist_ok=True)
+                env_extra = {"LLVM_PROFILE_FILE": os.path.join(build.TARGET, "profraw", "drv-%p.profraw")}
+            wrapper, errpath = None, None
+            if self.profile == "asan":
+                os.makedirs(os.path.join(build.TARGET, "sanitizer"), exist_ok=True)
+                env_extra = {"ASAN_OPTIONS": "halt_on_error=1:abort_on_error=1:detect_leaks=1:log_path=" + os.path.join(build.TARGET, "sanitizer", "asan")}
+            elif self.profile == "valgrind":
+                os.makedirs(os.path.join(build.TARGET, "sanitizer"), exist_ok=True)
+                wrapper = ["valgrind", "-q", "--error-exitcode=97", "--exit-on-first-error=yes",
+                           "--log-file=" + os.path.join(build.TARGET, "sanitizer", "valgrind-%p.log")]
+            self.drv = Driver(self.bin, env_extra=env_extra, wrapper=wrapper)
             self.drv.cfg(self.cfg)
             self.stats["driver_starts"] += 1
         return self.drv
